@@ -592,6 +592,8 @@ def build(chk):
     quick = chk.tier == "quick"
     gdocs = exhaustive_docs() + [rand_doc(rnd) for _ in range(24 if quick else 120)]
     tdocs = [typed_doc(rnd) for _ in range(30 if quick else 100)]
+    # objects whose keys are made only of digits, next to arrays: a QUOTED subscript navigates by key, an integer one by position
+    gdocs += [{"2024": 1, "0": "z", "7": [1, {"0": "q"}], "00": 5, "a": {"0": "in", "1": [7]}}, [10, 20, {"0": "k"}], {"0": [1, 2]}, {"a": ["p", "q"]}, ["s0", "s1"]]
     ndocs = [nested_doc(rnd) for _ in range(24 if quick else 80)]
     tables = {"tg": gdocs, "tc": gdocs[::3], "tt": tdocs, "tn": ndocs}
 
@@ -618,6 +620,11 @@ def build(chk):
     for segs in [["a", "b"], ["a", 0], [0, 1], [0, "a"], ["a", "b", 0], [1, 0]]:
         exprs.append(("tg", render_access(rnd, segs, "chain"), "adv:chained-subscripts"))
         exprs.append(("tg", render_access(rnd, segs, "chain") + "::varchar", "adv:chained-subscripts"))
+    for acc in ["{v}['2024']", "{v}['0']", "{v}['7']", "{v}['00']", "{v}['1']", "{v}[0]", "{v}[1]", '{v}:"2024"', '{v}:"0"', '{v}:a."0"', "{v}:a['0']", "{v}:a['1']", "{v}:a[1]",
+                "get_path({v}, 'a')['0']", "get_path({v}, 'a')[0]", "get_path({v}, '\"7\"')['1']", "get_path({v}, '\"7\"')[1]", "{v}['7'][0]", "{v}['0'][1]",
+                "get_path({v}, '\"0\"')", "get_path({v}, '[0]')"]:
+        for use in ("bare", "text", "upper", "isnull", "size"):
+            exprs.append(("tg", render_use(rnd, acc, use), "adv:digit-keys"))
     for e in ["trim(upper({v}:a))", "upper(trim({v}:a))", "{v}:a::varchar::varchar", "upper({v}:a::varchar)",
               "trim({v}:a::varchar)", "lower(upper({v}:a[0]))", "({v}:a)::varchar", "({v}:a[1])", "array_size(({v}:a))"]:
         exprs.append(("tg", e, "adv:nested-functions"))
